@@ -32,7 +32,8 @@ def load_op(sym, N, P):
     fail_at = None if f == n + 2 else f
     prior = [(100 + i, 'p%d' % i) for i in range(p)]
     rows = [(i, 'r%d' % i) for i in range(n)]
-    source = FailingSource([('a', 'b')] + rows, fail_at)
+    exc = sym.pick('exception', [SourceFailure, TypeError, KeyError, ValueError]) if fail_at is not None else SourceFailure
+    source = FailingSource([('a', 'b')] + rows, fail_at, exc)
     with private_tempdir() as td:
         path = os.path.join(td, 'db.sqlite')
         con0 = sqlite3.connect(path)
@@ -56,7 +57,7 @@ def load_op(sym, N, P):
         raised = False
         try:
             getattr(petl, op)(source, handle, 't', commit=commit)
-        except SourceFailure:
+        except exc:
             raised = True
         check(raised == (fail_at is not None), 'source failure must surface (and only then)', fail_at, raised)
         loaded = (prior if op == 'appenddb' else []) + rows
@@ -77,6 +78,48 @@ def load_op(sym, N, P):
         check(back == [('a', 'b')] + committed, 'fromdb round trip', back)
 
 
+def bulk_op(sym, sizes):
+    """Loads of about a thousand rows (drivers / helpers that work in batches)."""
+    n = sym.pick('n', sizes)
+    op = sym.pick('op', ['todb', 'appenddb'])
+    kind = sym.pick('kind', KINDS)
+    commit = sym.flag('commit')
+    f = sym.pick('fail_at', [None, 1, 500, 1000, 1001, n, n + 1])
+    if f is not None and f > n + 1:
+        return
+    prior = [(-1, 'p')]
+    rows = [(i, 'r') for i in range(n)]
+    source = FailingSource([('a', 'b')] + rows, f)
+    with private_tempdir() as td:
+        path = os.path.join(td, 'db.sqlite')
+        con0 = sqlite3.connect(path)
+        con0.execute('CREATE TABLE t (a INTEGER, b TEXT)')
+        con0.executemany('INSERT INTO t VALUES (?, ?)', prior)
+        con0.commit()
+        con0.close()
+        conn = None
+        if kind == 'filename':
+            handle = path
+        else:
+            conn = sqlite3.connect(path)
+            handle = conn if kind == 'connection' else conn.cursor() if kind == 'cursor' else (lambda: conn.cursor())
+        raised = False
+        try:
+            getattr(petl, op)(source, handle, 't', commit=commit)
+        except SourceFailure:
+            raised = True
+        check(raised == (f is not None), 'source failure must surface (and only then)', f, raised)
+        loaded = (prior if op == 'appenddb' else []) + rows
+        committed = loaded if (not raised and commit) else prior
+        got = _read(path)
+        check(len(got) == len(committed) and got == committed, 'fresh connection right after the call (bulk)', op, kind, commit, f,
+              len(got), len(committed))
+        if conn is not None:
+            conn.close()
+            got = _read(path)
+            check(got == committed, 'fresh connection after the caller closed its connection (bulk)', op, kind, commit, f, len(got))
+
+
 # --------------------------------------------------------------------------
 BOUNDS = {
     'quick': 'n in [0,3] data rows, prior contents of 0..2 rows, failure injected at the header / every data row / exhaustion / '
@@ -93,4 +136,6 @@ RULE = 'One job; every dimension is a solver-decided fork (the space is finite; 
 def jobs(tier):
     q = tier == 'quick'
     return [dict(name='todb-appenddb/n<=%d/prior<=%d' % ((3, 2) if q else (5, 3)), func='load_op',
-                 params=dict(N=3 if q else 5, P=2 if q else 3), budget=300 if q else 1200)]
+                 params=dict(N=3 if q else 5, P=2 if q else 3), budget=400 if q else 1800),
+            dict(name='bulk/%s' % ('1001' if q else '1000-1001-2500'), func='bulk_op',
+                 params=dict(sizes=[1001] if q else [1000, 1001, 2500]), budget=400 if q else 1800, validate_every=4)]
